@@ -136,6 +136,7 @@ theorem inv_conn {s s' : State} {c : ConnId} {a : CAct} (hi : Inv s)
       have hd' : preReg x.pc = false := by cases e <;> simpa [applyEff, setConn] using hd
       have := hreg hd'
       have h2 := hac hs' d
+      have hsd := cstep_sockDone hc
       cases e <;> simp only [applyEff, setConn, if_true] at * <;> grind
     · have h2 := hac hs' d
       cases e <;> simp only [applyEff, setConn, if_neg hdc] at * <;> grind
@@ -172,9 +173,7 @@ theorem inv_conn {s s' : State} {c : ConnId} {a : CAct} (hi : Inv s)
         have hx : preReg x.pc = false := by
           revert hm' hlx
           cases x.pc <;> simp [inMap, counted, preReg, holdsLock]
-        rcases hreg hx with h1 | h1
-        · exact absurd h1.1 hnoeff.2.1
-        · exact h1.2.2.2 hsc
+        exact cstep_sockDone hc hsc
       · have : (applyEff (setConn s c x) c e).conns d = s.conns d := by cases e <;> simp [applyEff, setConn, hdc]
         rw [this]; exact hsc
 
@@ -194,7 +193,7 @@ theorem inv_ghost {s : State} (hi : Inv s) (rs rc : CallId) (ap ec : Bool) :
 theorem inv_conns {s : State} {g : ConnId → Conn} (hi : Inv s)
     (hg : ∀ d, counted (g d).pc = counted (s.conns d).pc ∧ holdsLock (g d).pc = holdsLock (s.conns d).pc ∧
       inMap (g d).pc = inMap (s.conns d).pc ∧ preReg (g d).pc = preReg (s.conns d).pc ∧
-      (g d).regClosing = (s.conns d).regClosing ∧ ((s.conns d).sockClosed = true → (g d).sockClosed = true) ∧
+      (g d).regClosing = (s.conns d).regClosing ∧ (sockDone (s.conns d) → sockDone (g d)) ∧
       Local s.closing (g d))
     (habs : ∀ d, d ∉ s.ids → g d = {}) : Inv { s with conns := g } := by
   refine
@@ -213,7 +212,7 @@ theorem inv_conns {s : State} {g : ConnId → Conn} (hi : Inv s)
     rw [(hg d).2.2.2.2.1]
     exact hi.afterNil k hs d (by rw [← (hg d).1]; exact hd)
   · intro k hs d hd
-    show (g d).sockClosed = true ∨ (g d).regClosing = true
+    show sockDone (g d) ∨ (g d).regClosing = true
     rw [(hg d).2.2.2.2.1]
     have hd' : preReg (s.conns d).pc = false := by rw [← (hg d).2.2.2.1]; exact hd
     rcases hi.afterClose k hs d hd' with h | h
@@ -232,7 +231,11 @@ theorem inv_setConn {s : State} {c : ConnId} {x : Conn} (hi : Inv s) (hc : c ∈
   apply inv_conns hi
   · intro d
     by_cases hd : d = c
-    · subst hd; simp [hpc, hreg, hl]; exact hsock
+    · subst hd; simp [hpc, hreg, hl]
+      intro hsd
+      rcases hsd with h | h
+      · exact Or.inl (hsock h)
+      · exact Or.inr (hpc.trans h)
     · simp [hd, hi.loc d]
   · intro d hd
     have : d ≠ c := fun h => hd (h ▸ hc)
@@ -251,7 +254,10 @@ theorem inv_closeListener {s : State} (hi : Inv s) : Inv (closeListener s) := by
       by_cases hb : (s.conns d).pc = .backlog
       · have hl := hi.loc d
         simp only [hb, if_true]
-        refine ⟨by simp [counted], by simp [holdsLock], by simp [inMap, counted], by simp [preReg], trivial, id, ?_⟩
+        refine ⟨by simp [counted], by simp [holdsLock], by simp [inMap, counted], by simp [preReg], trivial,
+          (by intro hsd; rcases hsd with h | h
+              · exact Or.inl h
+              · rw [hb] at h; cases h), ?_⟩
         obtain ⟨h1, h2, h3, h4, h5, h6, h7⟩ := hl
         constructor <;> simp_all [preReg, noService, dropPath, pastDec]
       · simp [hb, hi.loc d]
@@ -336,8 +342,8 @@ structure CInv (s : State) (k : CallId) (x : CPC) : Prop where
   lock : s.lock = .closer k ↔ closeHolds x = true
   closing : closeClosed x = true → s.closing = true
   afterClose : closeSwept x = true → ∀ c, preReg (s.conns c).pc = false →
-      (s.conns c).sockClosed = true ∨ (s.conns c).regClosing = true
-  sweep : x = .closedCh → ∀ c, c ∈ s.registered → c ∈ s.sweepLeft ∨ (s.conns c).sockClosed = true
+      sockDone (s.conns c) ∨ (s.conns c).regClosing = true
+  sweep : x = .closedCh → ∀ c, c ∈ s.registered → c ∈ s.sweepLeft ∨ sockDone (s.conns c)
 
 theorem Inv.sinv {s : State} (hi : Inv s) (k : CallId) : SInv s k (s.shuts k) :=
   ⟨hi.lockShut k, hi.closingS k, hi.nilDrained k, hi.afterNil k, hi.errCtx k⟩
